@@ -476,7 +476,8 @@ pub fn scenario_nodes(s: &Scenario) -> Vec<Node> {
 /// order.  Histories toggle switches and flat inputs together, query the tops, then change what is
 /// under the firewalls and query the tops again.
 /// `proj`: some ghosts are PROJECTIONS over firewalls (their switch is a firewall too); `proj_links`: projections over those projections.
-pub fn gen_scenario_tfc(r: &mut Rng, proj: bool, proj_links: bool) -> Scenario {
+/// `groups`: tops read part of their dependencies inside an unordered group (before or after the single reads).
+pub fn gen_scenario_tfc(r: &mut Rng, proj: bool, proj_links: bool, groups: bool) -> Scenario {
     let n_fw = r.range(1, 3) as u32;
     let n_ghost = r.range(1, 3) as u32;
     let n_flat = r.range(1, 2) as u32;
@@ -539,7 +540,22 @@ pub fn gen_scenario_tfc(r: &mut Rng, proj: bool, proj_links: bool) -> Scenario {
     for t in 0..n_top {
         let k = r.range(2, mids.len() as u64 + 1) as usize;
         let mut e = Expr::Const(t as i64);
-        for _ in 0..k { e = Expr::Add(Box::new(e), rd(*r.pick(&mids))); }
+        if groups && r.chance(2, 3) {
+            // single reads and one unordered group (no duplicates inside a group), in either order
+            let mut members: Vec<Node> = Vec::new();
+            for _ in 0..r.range(1, 3) { let m = *r.pick(&mids); if !members.contains(&m) { members.push(m); } }
+            let singles: Vec<Node> = (0..r.range(1, 2)).map(|_| *r.pick(&mids)).collect();
+            let g = Expr::Group(members);
+            if r.chance(1, 2) {
+                for m in &singles { e = Expr::Add(Box::new(e), rd(*m)); }
+                e = Expr::Add(Box::new(e), Box::new(g));
+            } else {
+                e = Expr::Add(Box::new(e), Box::new(g));
+                for m in &singles { e = Expr::Add(Box::new(e), rd(*m)); }
+            }
+        } else {
+            for _ in 0..k { e = Expr::Add(Box::new(e), rd(*r.pick(&mids))); }
+        }
         // sometimes a second level, so that the bookkeeping has to travel further up
         let n = nrm(next + t);
         prog.exprs.insert(n, e); tops.push(n);
